@@ -200,6 +200,12 @@ StepMine(e) ==
               ELSE IF c # "" /\ c # "inconclusive" THEN Out(c) /\ done' = TRUE /\ l' = l
               ELSE /\ l' = l + 1 /\ done' = (l + 1 > Len(Ev)) /\ ((l + 1 > Len(Ev)) => Out("ok"))
 
+(* ---- the miner's request handler raised while assembling a candidate from (served state, pending transactions) ---- *)
+StepMineFailed(e) ==
+  /\ UNCHANGED << tid, miner, unval, txd, pool, active, outbox, lastValid >> /\ UNCHANGED storeVars /\ SetCS(CSV)
+  /\ IF "C12" \in Focus THEN Out("C12:miner_cannot_assemble_a_candidate_from_its_head_and_the_pending_transactions") /\ done' = TRUE /\ l' = l
+     ELSE /\ l' = l + 1 /\ done' = (l + 1 > Len(Ev)) /\ ((l + 1 > Len(Ev)) => Out("ok"))
+
 TInit == /\ tid \in 1..Len(Traces) /\ l = 1 /\ done = FALSE
          /\ NInit(ToBlk(Traces[tid].genesis), SetOf(Traces[tid].peers))
          /\ txd = [x \in {} |-> 0] /\ unval = {}
@@ -208,5 +214,6 @@ TNext == /\ ~done /\ l <= Len(Ev)
             CASE e.op = "block" -> StepBlock(e)
               [] e.op = "tx" -> StepTx(e)
               [] e.op = "mine" -> StepMine(e)
+              [] e.op = "mine_failed" -> StepMineFailed(e)
 TSpec == TInit /\ [][TNext]_tv
 =============================================================================
